@@ -90,9 +90,21 @@ def write_json(path, obj):
 
 def main():
     ap = argparse.ArgumentParser()
-    ap.add_argument('prop')
+    ap.add_argument('prop', nargs='?')
     ap.add_argument('--tier', default=os.environ.get('VERIF_TIER', 'quick'))
+    ap.add_argument('--replay', help='replay file written by an earlier run: show it and re-decide its obligation on the current tree')
     a = ap.parse_args()
+    if a.replay:
+        rp = json.load(open(a.replay))
+        print(f"replay of {rp['property']}: obligation {rp['obligation']} ({rp['backend']})")
+        print('verifier: ' + rp.get('verifier_message', '')[:400])
+        case = (rp.get('replay_on_real_code') or {}).get('failing_case') or (rp.get('kani_playback') or {}).get('test_code')
+        if case:
+            print('failing input on the real code: ' + str(case)[:1200])
+        print('re-running the check of that property on the current tree ...', flush=True)
+        a.prop = rp['property']
+    if not a.prop:
+        ap.error('property id or --replay PATH required')
     prop, tier = a.prop, a.tier if a.tier in ('quick', 'thorough') else 'quick'
     seed = int(os.environ.get('VERIF_SEED', '0') or 0)
     props = load_props()
